@@ -72,6 +72,21 @@ def step (line : String) : String :=
     (match parseNats s with
      | some t => (match unhexlify t with | some d => "ok " ++ showNats d | none => "none")
      | none => "bad-op")
+  | ["internal", t] =>
+    (match parseNats t with
+     | some txt =>
+       (match pairLines (internalLines txt) with
+        | some ps => "ok " ++ ";".intercalate (ps.map fun p => toString p.1 ++ ":" ++ showNats p.2)
+        | none => "err")
+     | none => "bad-op")
+  | ["xtagsapp", s, sub, g] =>
+    (match (if s.isEmpty then some [] else (s.splitOn ";").mapM parseXTag),
+           sub.toNat?, (if g.isEmpty then some [] else (g.splitOn ";").mapM parseXTag) with
+     | some ts, some k, some grp =>
+       (match XTags.setup ts with
+        | .ok x => "ok " ++ ";".intercalate ((XTags.iter (XTags.newAppData x k grp)).map showXTag)
+        | .error _ => "err")
+     | _, _, _ => "bad-op")
   | ["compile", s] =>
     (match parseNats s with
      | some codes =>
